@@ -71,8 +71,9 @@ CHECKS.update({
    note="Trusted: TLC, lib/sbparse.py, lib/absstate.py tree digest (via debugfs rdump + stat listing), e2fsck -fn. -I inode resize only 128->256; external journals and mounted-filesystem paths not exercised.",
    technique="TLA+ spec of tune2fs's feature-change contract model-checked with TLC + trace validation of real tune2fs runs enumerated by the spec"),
  "C13": dict(level="model_checking",
-   text="ToolRun.tla models one tool invocation over a device (Open / DevWrite / DevTruncate / DevFallocate / DevFsync / Close / Exit / Killed) with ReadOnlyNeverModifies, RoUnmodified; TLC checks it "
-        "exhaustively. Conformance: image states (7 profiles x {clean, journal needing recovery, orphans, MMP, quota, ~40 corruption recipes, seeded metadata damage}) x every documented read-only "
+   text="ToolRun.tla models one tool invocation over a device (Open / DevWrite / DevTruncate / DevFallocate / DevFsync / Close / Exit / Killed) with ReadOnlyNeverModifies, RoUnmodified; ToolRunZ.tla adds "
+        "auxiliary files (the -z undo file, the undo log e2undo replays: writes there never touch the target); ToolRunUniv.tla holds the catalogues TLC enumerates (60 read-only -z invocations, journal x orphan "
+        "image axes, 272 e2undo dry runs per profile with the outcome a model of e2undo's guard chain expects); TLC checks them exhaustively. Conformance: image states (7 profiles x {clean, journal needing recovery, orphans, MMP, quota, ~40 corruption recipes, seeded metadata damage}) x every documented read-only "
         "command line of every tool and every debugfs request without -w run under LD_PRELOAD=iotrace.so; the recorded event stream + {exit, signal, sha256 before = after} is validated by TLC "
         "against Trace_ToolRun: any write-class call on a writable descriptor of the target, O_TRUNC/O_CREAT open or changed digest rejects the trace.",
    note="Trusted: TLC, harness/iotrace.so (control runs prove it sees writes), sha256 of the image. mmap writes and direct syscalls are not interposed (the tools use neither). Block devices are not available in the sandbox.",
